@@ -119,3 +119,21 @@ def extra_derives(key, candidates, p=0.3):
     k = r.randint(1, min(3, len(candidates)))
     picked = r.sample(candidates, k)
     return ["#[derive(%s)]" % ", ".join(picked)]
+
+
+# switches and names that steer OTHER derives (EnumString, Display, AsRefStr): to EnumIter and EnumTable a variant that
+# carries them is a variant like any other
+FOREIGN_SWITCHES = ['#[strum(default)]', '#[strum(ascii_case_insensitive)]', '#[strum(ascii_case_insensitive = false)]',
+                    '#[strum(serialize = "zz")]', '#[strum(to_string = "tt")]', '#[strum(default, ascii_case_insensitive)]']
+
+
+def foreign_switch(key, p=0.1, allow_names=True):
+    """own PRNG stream keyed by `key`: [] or one attribute line"""
+    if MINIMAL[0]:
+        return []
+    import random
+    r = random.Random("foreign-switch-" + key)
+    if r.random() >= p:
+        return []
+    pool = FOREIGN_SWITCHES if allow_names else [x for x in FOREIGN_SWITCHES if "serialize" not in x and "to_string" not in x]
+    return [r.choice(pool)]
